@@ -8,7 +8,7 @@ Import ListNotations.
 From CXV Require Import Gen.Blocks Parse.BlocksSM Parse.BlocksSpec Parse.BlocksThms.
 From CXV Require Gen.PinsC03.
 From CXV Require Import Gen.ParserTables Parse.Balanced Parse.BalancedThms Parse.Specs Parse.ClassEnum Parse.CtorDtor.
-From CXV Require Import Gen.TokTy Parse.Declarator Parse.DeclSpec Parse.DeclThms Parse.BaseClause Parse.EnumList Parse.Specs Parse.Init Parse.Members Parse.MethodTail Parse.DeclStmt Parse.MemberStmt Parse.OpName Parse.FinishClass Parse.ConvOp Parse.OperatorMember Parse.FriendStmt Gen.TopLoop Parse.Bodies.
+From CXV Require Import Gen.TokTy Parse.Declarator Parse.DeclSpec Parse.DeclThms Parse.BaseClause Parse.EnumList Parse.Specs Parse.Init Parse.Members Parse.MethodTail Parse.DeclStmt Parse.MemberStmt Parse.OpName Parse.FinishClass Parse.ConvOp Parse.OperatorMember Parse.FriendStmt Gen.TopLoop Parse.Bodies Parse.ClassDef Parse.ClassDefThms.
 Open Scope N_scope.
 
 (* the access delivered with a member equals the backward-scan specification
@@ -300,6 +300,31 @@ Theorem member_statements_compose : forall cls dcls pre post b items last e,
             (CMembers m (map (mditem_entry bt) items ++ [mlast_entry bt last e]))).
 Proof. exact member_stmt_is_elem. Qed.
 
+(* Whole class definitions, nested to any depth, on the PARSER side (Parse/ClassDef.v: the class statement -- class key, name,
+   _maybe_parse_class_enum_decl, the head of _parse_class_decl -- the body as the statement loop under the class's own default
+   access, the closing brace and _finish_class_or_enum, recursively).  For a definition written as any tree of access
+   specifiers, empty statements, member statements (abstractly, as above), forward declarations and nested class
+   definitions (any class key, final, any base clause): the tree is read back as written; every member, forward declaration
+   and nested class carries the access in force in ITS OWN class at its position -- the class-key default of that class
+   until its first access specifier, then its most recent one -- whatever nested classes stand before or around it. *)
+Theorem nested_classes_keep_their_own_access_partial : forall n dt (w : wclass) rest,
+  welem_ok n dt anon_base anon_base (WClass w) -> (match rest with [] => True | t :: _ => stop_tok t end) ->
+  ev (fun f => body (S (S (esize (WClass w)))) n f dt None 0 0 (welem_toks (WClass w) ++ rest))
+     (match wclass_spec 0 w with IClass a c => DOk ([IClass a c], 0, rest) | _ => DErr 3 end).
+Proof. exact class_def_tree. Qed.
+
+(* ... and the statements of member_statement_decodes_partial are such elements, in whichever class they stand *)
+Theorem member_statements_are_tree_elements : forall dt cls dcls pre post b items last e,
+  forallb spec_kw pre = true -> forallb spec_kw post = true -> has T_extern (pre ++ post) = false ->
+  Forall mditem_ok items -> mditem_ok last -> mlast_ok last e ->
+  is_decl_head (hd (nm_tok b) (kw_toks pre)) ->
+  let m := apply_kws (pre ++ post) mods0 in
+  let bt := TBase b (m_const m) (m_volatile m) in
+  welem_ok (S (length items)) dt cls dcls
+    (WStmt (kw_toks pre ++ nm_tok b :: kw_toks post ++ mitems_toks items last e)
+           (CMembers m (map (mditem_entry bt) items ++ [mlast_entry bt last e]))).
+Proof. exact member_stmt_is_welem. Qed.
+
 (* the functions the hand-written models above mirror (_parse_class_decl, _parse_class_decl_base_clause, _maybe_parse_class_enum_decl, _parse_decl, _parse_method_end, _discard_ctor_initializer, _parse_field, _parse_bitfield, _parse_declarations, _parse_function, _parse_pqname_name_operator, _parse_operator_conversion and _finish_class_or_enum) are, token for
    token of their syntax trees, the ones the models were written against: the
    translator recomputes the digests from the live code and produces Gen/PinsC03.v
@@ -307,6 +332,8 @@ Proof. exact member_stmt_is_elem. Qed.
 Theorem modelled_functions_are_the_pinned_ones : PinsC03.model_code_pinned = true.
 Proof. exact (eq_refl true). Qed.
 
+Print Assumptions nested_classes_keep_their_own_access_partial.
+Print Assumptions member_statements_are_tree_elements.
 Print Assumptions class_head_decodes_partial.
 Print Assumptions method_tail_decodes_partial.
 Print Assumptions field_statement_decodes_partial.
